@@ -662,6 +662,21 @@ class Program:
                 return f
         return self.fn(path, required)
 
+    def async_body(self, path):
+        """the coroutine body of an `async fn`, or None when `path` is not one."""
+        if not hasattr(self, '_async'):
+            self._async = {}
+        if path in self._async:
+            return self._async[path]
+        outer = self.fns.get(path)
+        co = self.fns.get(path + '::{closure#0}')
+        res = None
+        if outer is not None and co is not None:
+            if any(st.get('rv', {}).get('ak') == 'coroutine' and st['rv'].get('def') == co.path for b in outer.blocks for st in b['s']):
+                res = co
+        self._async[path] = res
+        return res
+
     def find_fns(self, rx):
         r = re.compile(rx)
         return [f for p, f in sorted(self.fns.items()) if r.search(p)]
